@@ -3,8 +3,11 @@
 
 mod bddhist;
 mod ctx;
+mod exact;
+mod gen;
 mod mon;
 mod rng;
+mod sddhist;
 mod tt;
 mod walk;
 
